@@ -22,12 +22,18 @@ from typing import Any, Callable, Dict, List, Optional
 from .srcmodel import Repo
 
 STDLIB_OK = {"typing", "types", "typing_extensions", "dataclasses", "enum", "inspect", "re", "sys", "collections.abc",
-             "contextlib", "hashlib", "collections", "functools", "itertools", "abc", "datetime"}
-REPO_MODULES_INTERPRETED = {"mashumaro.core.const", "mashumaro.core.meta.helpers"}
+             "contextlib", "hashlib", "collections", "functools", "itertools", "abc", "datetime", "math", "uuid", "importlib"}
+REPO_MODULES_INTERPRETED = {"mashumaro.core.const", "mashumaro.core.meta.helpers", "mashumaro.core.meta.code.builder"}
 
 
 class Unsupported(Exception):
     pass
+
+
+def _stdlib(modname: str) -> bool:
+    import sys
+    top = modname.split(".")[0]
+    return top in STDLIB_OK or top in sys.stdlib_module_names
 
 
 class _Return(Exception):
@@ -54,8 +60,9 @@ class Opaque:
 
 
 class IFunc:
-    def __init__(self, mod: "IModule", node: ast.FunctionDef, closure: Optional[Dict[str, Any]] = None):
+    def __init__(self, mod: "IModule", node: ast.FunctionDef, closure: Optional[Dict[str, Any]] = None, owner: Optional[str] = None):
         self.mod, self.node, self.closure = mod, node, closure
+        self.owner = owner  # name of the class the function is a method of (private-name mangling)
         self.__name__ = node.name
         self.__qualname__ = node.name
 
@@ -72,6 +79,7 @@ class IModule:
         self.tree = te.repo.module(name).tree
         self.ns: Dict[str, Any] = {"__name__": name}
         self.pending: Dict[str, ast.stmt] = {}
+        self.classes: Dict[str, ast.ClassDef] = {}
         self._index(self.tree.body)
 
     def _index(self, body):
@@ -95,13 +103,15 @@ class IModule:
                             self.pending[(a.asname or a.name).split(".")[0]] = st
             elif isinstance(st, ast.ClassDef):
                 self.ns[st.name] = Opaque(f"{self.name}.{st.name}")
+                self.classes[st.name] = st
 
     def get(self, name: str):
         if name in self.ns:
             return self.ns[name]
         if name in self.pending:
-            st = self.pending.pop(name)
-            self._exec_toplevel(st)
+            st = self.pending[name]
+            self._exec_toplevel(st)  # an Unsupported import stays pending: every later use is Unsupported again
+            self.pending.pop(name, None)
             if name in self.ns:
                 return self.ns[name]
         if hasattr(builtins, name):
@@ -113,7 +123,7 @@ class IModule:
         if isinstance(st, ast.Import):
             for a in st.names:
                 top = a.name.split(".")[0]
-                if a.name not in STDLIB_OK and top not in STDLIB_OK:
+                if not _stdlib(a.name):
                     raise Unsupported(f"import {a.name}")
                 m = importlib.import_module(a.name)
                 self.ns[a.asname or top] = m if a.asname else importlib.import_module(top)
@@ -126,7 +136,7 @@ class IModule:
             elif modname.startswith("mashumaro"):
                 for a in st.names:
                     self.ns[a.asname or a.name] = Opaque(f"{modname}.{a.name}")
-            elif modname in STDLIB_OK or modname.split(".")[0] in STDLIB_OK:
+            elif _stdlib(modname):
                 m = importlib.import_module(modname)
                 for a in st.names:
                     self.ns[a.asname or a.name] = getattr(m, a.name)  # ImportError semantics: AttributeError -> ImportError
@@ -155,8 +165,9 @@ class IModule:
 
 
 class Frame:
-    def __init__(self, mod: IModule, local: Dict[str, Any], parent: Optional["Frame"] = None):
+    def __init__(self, mod: IModule, local: Dict[str, Any], parent: Optional["Frame"] = None, owner: Optional[str] = None):
         self.mod, self.local, self.parent = mod, local, parent
+        self.owner = owner if owner is not None else (parent.owner if parent is not None else None)
 
     def get(self, name):
         f: Optional[Frame] = self
@@ -184,6 +195,17 @@ class TypeEval:
         if not isinstance(f, IFunc):
             raise Unsupported(f"{module}::{name} is not a plain function")
         return f
+
+    def method(self, module: str, cls: str, name: str) -> IFunc:
+        """A method of a repository class as a plain function of ``self`` (decorators such as property / lru_cache are
+        ignored); ``self`` is a stub object supplied by the rule."""
+        im = self.module(module)
+        if cls not in im.classes:
+            raise Unsupported(f"class {module}::{cls} not found")
+        for st in im.classes[cls].body:
+            if isinstance(st, ast.FunctionDef) and st.name == name:
+                return IFunc(im, st, owner=cls)
+        raise Unsupported(f"method {module}::{cls}.{name} not found")
 
     # ---------------------------------------------------------------- calls
     def call(self, f: IFunc, args: List[Any], kwargs: Dict[str, Any]):
@@ -219,7 +241,7 @@ class TypeEval:
                 raise TypeError(f"{node.name}() missing argument {n}")
         if any(isinstance(n, (ast.Yield, ast.YieldFrom)) for n in ast.walk(node)):
             raise Unsupported("generator function " + node.name)
-        fr = Frame(f.mod, local, Frame(f.mod, f.closure) if f.closure else None)
+        fr = Frame(f.mod, local, Frame(f.mod, f.closure) if f.closure else None, owner=f.owner)
         try:
             self.block(node.body, fr)
         except _Return as r:
@@ -324,7 +346,7 @@ class TypeEval:
                 if not isinstance(ex, classes):
                     raise
         elif isinstance(st, ast.FunctionDef):
-            fr.local[st.name] = IFunc(fr.mod, st, closure=_flatten(fr))
+            fr.local[st.name] = IFunc(fr.mod, st, closure=_flatten(fr), owner=fr.owner)
         elif isinstance(st, ast.Assert):
             if not self.expr(st.test, fr):
                 raise AssertionError()
@@ -365,7 +387,10 @@ class TypeEval:
         v = self.expr(e.value, fr)
         if isinstance(v, Opaque):
             raise Unsupported(f"attribute of {v}")
-        return getattr(v, e.attr)
+        attr = e.attr
+        if fr.owner and attr.startswith("__") and not attr.endswith("__"):
+            attr = f"_{fr.owner.lstrip('_')}{attr}"
+        return getattr(v, attr)
 
     def e_Call(self, e, fr):
         f = self.expr(e.func, fr)
@@ -503,7 +528,7 @@ class TypeEval:
 
     def e_Lambda(self, e, fr):
         fn = ast.FunctionDef(name="<lambda>", args=e.args, body=[ast.Return(value=e.body)], decorator_list=[], returns=None, type_comment=None)
-        return IFunc(fr.mod, fn, closure=_flatten(fr))
+        return IFunc(fr.mod, fn, closure=_flatten(fr), owner=fr.owner)
 
     def e_Starred(self, e, fr):
         raise Unsupported("starred expression")
